@@ -534,5 +534,8 @@ def check(ctx):
                             why=" - the ping loop dies and an unreachable spa is never reported")
     ctx.rule("R10", "set-spa-info reaches the driver: the reconnect driver, interpreted for two passes on the manager model with the real async_set_spa_info (new address, new identifier) called between them, locates and connects in the second pass with the NEW address and identifier - a driver that read them once before its loop keeps looking for the spa where it no longer is: SPA_NOT_FOUND, a state nothing leaves")
     driver_follows_spa_info(ctx, repo, "R10")
+    ctx.rule("R11", "a reset always gets through the facade: async_reset awaits facade.disconnect() before anything else, so that call must complete whatever the facade's own task has done so far - on the facades built for every platform, with the update task registered but not yet run (a reset in the loop iteration that built the facade: a task cancelled before its first step never reaches its `finally`), disconnect() completes; a disconnect that waits for a signal only the update task's body gives hangs the reset for good: the manager stays CONNECTED to a dead facade, and every later self-heal goes through the same hung call (C08.I14 borrowed)")
+    from .c08 import facade_disconnect_completes as _fdc9
+    _fdc9(ctx.borrowed("R11", "C08"), repo, "I14")
     ctx.note("NOT decided (the headline of the property): that recovery happens, within what time, after which fault scripts; that the facade's values mirror the spa afterwards. States that are terminal by design (CONNECTING after 'cannot find spa pack') are not flagged.")
     ctx.assume("a ping loop exists in the states named by the ping-received row (a connection was established before the error)")
